@@ -201,9 +201,10 @@ CONFIG["C19"] = dict(
 )
 
 CONFIG["C13"] = dict(
+    extra_gen=True,
     modules=["CanVerif.Props.C13", "CanVerif.Props.C13Code"],
     t2_modules=["CanVerif.Props.C13Code"],
-    level_text="Kernel-checked Lean theorems: Props/C13.lean proves, for every reachable state of every interleaving of any number of threads that each run a well-locked region under one mutex (runner goroutines and application goroutines alike), that a thread in front of a state access holds the lock, a thread in front of a hook call, a transmission or a return does not, and that two threads are never both in front of an access (C13_sound, C13_race_free). Every goroutine body of pkg/canrunner (receiver, transmitter, Run and the function literals it spawns) is translated from the working tree on every run into a structured program (harness/cmd/extract: go/types, package-local calls, methods and closures inlined; Gen/RunnerProg.lean); Model/Prog.lean holds an abstract interpreter over such programs for finite-state monitors, proved sound for every partial and complete execution (Lemmas/Prog.lean chk_sound); Props/C13Code.lean re-checks by decide that every body passes the lock monitor (accesses only while holding the lock, hook calls / transmissions / returns only while not, lock and unlock alternating), that the frame is marshalled after the latest hook call on every path to a transmission, and that all the accesses the property lists occur. If the translator does not cover the current source shape the run says so (coverage.tie_notes) and rests on the correspondence run. The real RunMessageReceiver/RunMessageTransmitter are driven with step-controlled fakes that check the lock holder at every access and hook call; their call traces are compared with the model.",
+    level_text="Kernel-checked Lean theorems: Props/C13.lean proves, for every reachable state of every interleaving of any number of threads that each run a well-locked region under one mutex (runner goroutines and application goroutines alike), that a thread in front of a state access holds the lock, a thread in front of a hook call, a transmission or a return does not, and that two threads are never both in front of an access (C13_sound, C13_race_free). Every goroutine body of pkg/canrunner (receiver, transmitter, Run and the function literals it spawns) is translated from the working tree on every run into a structured program (harness/cmd/extract: go/types, package-local calls, methods and closures inlined; Gen/RunnerProg.lean); Model/Prog.lean holds an abstract interpreter over such programs for finite-state monitors, proved sound for every partial and complete execution (Lemmas/Prog.lean chk_sound); Props/C13Code.lean re-checks by decide that every body passes the lock monitor (accesses only while holding the lock, hook calls / transmissions / returns only while not, lock and unlock alternating), that the frame is marshalled after the latest hook call on every path to a transmission, and that all the accesses the property lists occur. If the translator does not cover the current source shape the run says so (coverage.tie_notes) and rests on the correspondence run. The real RunMessageReceiver/RunMessageTransmitter are driven with step-controlled fakes that check the lock holder at every access and hook call; their call traces are compared with the model. The generated node code is part of the property too: for every node the tree's generator emits for the C11 programs, the runner-facing glue is driven through canrunner.Node (gnode: the hook value the runner reads is the one installed at that time, lookups by ID, embedded lock).",
     level_note="Trusted: Lean kernel; the extractor's classification of calls (message methods = state accesses, Lock/Unlock, hook variables, TransmitFrame); sync.Mutex and the Go memory model (lock-protected accesses do not race) are assumed, not modelled below mutex granularity.",
     level="proof",
     trivial=r"^$",
@@ -211,8 +212,9 @@ CONFIG["C13"] = dict(
     trusted_base=["harness/cmd/extract (go/ast walker, fails closed on unknown statement shapes)", "sync.Mutex / Go memory model assumed"],
 )
 CONFIG["C14"] = dict(
+    extra_gen=True,
     modules=["CanVerif.Props.C14", "CanVerif.Props.C14Stop"],
-    level_text="Kernel-checked Lean theorems (Props/C14.lean) over the labelled transition system of the transmitter loop (wake-up channel of capacity 1, flag, any number of toggling applications, event requests by rendezvous, a tick channel that Stop does not drain): for every reachable state of every interleaving, toggles are never lost (parked with no wake-up pending and no toggle in progress implies ticker armed iff enabled), sent + in-flight = accepted requests + consumed ticks, and after a handled disable at most one already-due tick is consumed. The real functions are run against step-controlled fakes: receiver scripts with faults at every position, all transmitter event sequences up to length 3 (quick) / 4 (thorough) over {request, enable, disable, cancel, hook error, transmit error} plus sampled longer ones, real-time cyclic transmission with a 3 ms cycle (frames start after enable, at most one after a handled disable), and canrunner.Run over net.Pipe (returns nil on cancel / the error on a failing hook, connection closed, no goroutine left).",
+    level_text="Kernel-checked Lean theorems (Props/C14.lean) over the labelled transition system of the transmitter loop (wake-up channel of capacity 1, flag, any number of toggling applications, event requests by rendezvous, a tick channel that Stop does not drain): for every reachable state of every interleaving, toggles are never lost (parked with no wake-up pending and no toggle in progress implies ticker armed iff enabled), sent + in-flight = accepted requests + consumed ticks, and after a handled disable at most one already-due tick is consumed. The real functions are run against step-controlled fakes: receiver scripts with faults at every position, all transmitter event sequences up to length 3 (quick) / 4 (thorough) over {request, enable, disable, cancel, hook error, transmit error} plus sampled longer ones, real-time cyclic transmission with a 3 ms cycle (frames start after enable, at most one after a handled disable), and canrunner.Run over net.Pipe (returns nil on cancel / the error on a failing hook, connection closed, no goroutine left). The generated request / toggle API is driven for every node of the C11 programs (gnode: a toggle leaves exactly one wake-up token, a request is a rendezvous -- delivered when a loop receives, failing when the context is cancelled, also right after a transmission).",
     level_note="Stop and fault clauses (Props/C14Stop.lean, Model/RunGroup.lean: the errgroup of Run with its derived context, the closing goroutine, the receiver, one transmitter per message): for every number of transmitters and every schedule, a run whose only errors are closed-connection errors returns nil (C14_clean_stop), the connection is closed once all goroutines have returned (C14_terminal_conn_closed), the first recorded error is what Run returns unless its text contains 'closed' (C14_fault_reported; the complement is finding F2, C14_F2_swallowed), and from every reachable state with a done context some goroutine can return (C14_no_goroutine_left). What hooks, Receive and TransmitFrame do is not modelled (a goroutine may fail at any time; they are assumed to return), the timed clause is measured; the real Run is compared with the model on cancel / hook-failure / cancel-inside-hook scenarios with a goroutine-leak check. Known finding F2: Run maps any error containing 'closed' to nil.",
     level="proof",
     trivial=r"^$",
